@@ -214,6 +214,9 @@ class SolverWorld(World):
             return {"k": "rdm", "seed": seed}
         if r < 0.87:
             return {"k": "resources"}
+        if r < 0.895:
+            # the user builds N / Sz / S^2 with the public helper functions and goes on computing with *their* operator in place
+            return {"k": "helper_inplace", "which": rng.choice(["N", "Sz", "S^2"]), "how": rng.choice(["scale", "shift", "clear"]), "c": rng.choice([2.0, -1.0, 0.5])}
         if r < 0.92:
             # the user modifies the Hamiltonian object held by the solver in place (scaling, constant shift, re-weighting a term)
             return {"k": "mutate_h", "how": rng.choice(["scale", "shift", "reweight"]), "c": rng.choice([2.0, 0.5, -1.0, 1.5]), "i": rng.randrange(64)}
@@ -292,6 +295,23 @@ class SolverWorld(World):
             except Exception as ex:
                 ctx.outcome(k, "refused-undetermined")       # get_rdm's values and domain belong to C13; here it only perturbs the solver
                 ctx.ev("rdm-refused", repr(ex)[:80])
+        elif k == "helper_inplace":
+            if self.mol is None:
+                ctx.outcome(k, "skipped")
+                return V
+            from tangelo.toolboxes.ansatz_generator import fermionic_operators as FO
+            fn = {"N": FO.number_operator, "Sz": FO.spinz_operator, "S^2": FO.spin2_operator}[op["which"]]
+            for utd in (False, True):
+                o = fn(self.mol.n_active_mos, up_then_down=utd)
+                if op["how"] == "scale":
+                    o *= op["c"]
+                elif op["how"] == "shift":
+                    o += op["c"]
+                else:
+                    o.terms.clear()
+            ctx.outcome(k, "ok")
+            ctx.probe("C08.helper_operator_modified_in_place_by_caller")
+            V += self._opexp({"k": "opexp", "op": op["which"], "seed": 7, "theta_none": True}, site, nvar)
         elif k == "resources":
             try:
                 quiet(s.get_resources)
